@@ -1,5 +1,5 @@
 //! C13 end-to-end: `e2e spec n=<nodes> sh=<shards, 0 = unsharded> idem=<0|1> max=<speculative executions>
-//! iv=<interval ms> slow=<page 0|1|2> kind=<query|exec> seed=<s>`
+//! iv=<interval ms> slow=<page 0|1|2> kind=<query|exec> lb=<default|st:<node>:<shard|->> seed=<s>`
 //!
 //! A real `Session` with a `SimpleSpeculativeExecutionPolicy { max, iv }` and the Fallthrough retry policy pages through
 //! three pages (`Session::query_iter` / `execute_iter`, i.e. the real `PagingExecutor::fetch_one_page`: page 0 over the
@@ -41,8 +41,28 @@ pub fn generate(rng: &mut Rng, tier: Tier, emit: &mut dyn FnMut(String)) {
     }
     emit_one(3, 0, 0, 3, 1, "exec", seed);
     emit_one(3, 0, 1, 1, 2, "query", seed + 1);
-    if tier == Tier::Thorough {
-        for _ in 0..40 {
+    drop(emit_one);
+    // single-target execution profile (SingleTargetLoadBalancingPolicy), with and without an explicit shard, on
+    // unsharded and sharded nodes: its plan is ONE target, so the speculative executions find the plan exhausted
+    let mut st = |n: u64, sh: u64, node: u64, shard: &str, max: u64, slow: u64, kind: &str, seed: u64| {
+        emit(format!(
+            "e2e spec n={} sh={} idem=1 max={} iv=25 slow={} kind={} lb=st:{}:{} seed={}",
+            n, sh, max, slow, kind, node, shard, seed
+        ));
+    };
+    st(3, 2, 1, "1", 2, 0, "exec", seed + 2);
+    st(3, 2, 0, "0", 2, 1, "query", seed + 3);
+    st(3, 2, 2, "-", 2, 0, "exec", seed + 4);
+    st(2, 0, 1, "-", 2, 1, "exec", seed + 5);
+    st(2, 0, 0, "0", 1, 0, "query", seed + 6);
+    st(3, 3, 1, "2", 3, 2, "exec", seed + 7);
+    drop(st);
+    let mut emit_one = |n: u64, sh: u64, idem: u64, max: u64, slow: u64, kind: &str, seed: u64| {
+        emit(format!("e2e spec n={} sh={} idem={} max={} iv=25 slow={} kind={} seed={}", n, sh, idem, max, slow, kind, seed));
+    };
+    {
+        let extra = if tier == Tier::Thorough { 60 } else { 10 };
+        for _ in 0..extra {
             let n = 2 + rng.below(3);
             emit_one(
                 n,
@@ -53,6 +73,28 @@ pub fn generate(rng: &mut Rng, tier: Tier, emit: &mut dyn FnMut(String)) {
                 *rng.pick(&["query", "exec"]),
                 rng.below(1 << 32),
             );
+        }
+    }
+    drop(emit_one);
+    if tier == Tier::Thorough {
+        for _ in 0..20 {
+            let n = 1 + rng.below(3);
+            let sh = *rng.pick(&[0u64, 2, 3]);
+            let explicit = rng.chance(2, 3);
+            let shard = if explicit { rng.below(sh.max(1)).to_string() } else { "-".to_owned() };
+            // without an explicit shard on sharded nodes only the first page is judged strictly (see run)
+            let slow = if !explicit && sh > 0 { 0 } else { rng.below(3) };
+            emit(format!(
+                "e2e spec n={} sh={} idem=1 max={} iv=25 slow={} kind={} lb=st:{}:{} seed={}",
+                n,
+                sh,
+                1 + rng.below(3),
+                slow,
+                *rng.pick(&["query", "exec"]),
+                rng.below(n),
+                shard,
+                rng.below(1 << 32)
+            ));
         }
     }
 }
@@ -74,6 +116,25 @@ pub fn run(words: &[&str], ctx: &mut Ctx) -> String {
         return "bad-case".into();
     };
     let kind = p.str("kind").unwrap_or("exec");
+    // load balancing: the default policy, or `st:<node>:<shard|->` = SingleTargetLoadBalancingPolicy
+    let lb = p.str("lb").unwrap_or("default");
+    let single: Option<(usize, Option<u32>)> = if lb == "default" {
+        None
+    } else {
+        let parts: Vec<&str> = lb.split(':').collect();
+        if parts.len() != 3 || parts[0] != "st" {
+            return "bad-case".into();
+        }
+        let Ok(k) = parts[1].parse::<usize>() else { return "bad-case".into() };
+        let shard = match parts[2] {
+            "-" => None,
+            x => match x.parse::<u32>() {
+                Ok(v) => Some(v),
+                Err(_) => return "bad-case".into(),
+            },
+        };
+        Some((k, shard))
+    };
     if !(1..=6).contains(&n) || sh > 8 || max > 8 || !(5..=200).contains(&iv) || slow > 2 || !["query", "exec"].contains(&kind) {
         return "bad-case".into();
     }
@@ -116,7 +177,17 @@ pub fn run(words: &[&str], ctx: &mut Ctx) -> String {
     rt.block_on(async {
         use scylla::statement::unprepared::Statement;
         let cluster = MockCluster::start(shape.topology(), handler).await;
-        let profile = ExecutionProfile::builder()
+        let mut builder = ExecutionProfile::builder();
+        if let Some((k, shard)) = single {
+            if k >= n {
+                return "bad-case".to_owned();
+            }
+            builder = builder.load_balancing_policy(scylla::policies::load_balancing::SingleTargetLoadBalancingPolicy::new(
+                scylla::policies::load_balancing::NodeIdentifier::NodeAddress(cluster.addr(k)),
+                shard,
+            ));
+        }
+        let profile = builder
             .speculative_execution_policy(Some(Arc::new(SimpleSpeculativeExecutionPolicy {
                 max_retry_count: max as usize,
                 retry_interval: Duration::from_millis(iv),
@@ -172,7 +243,7 @@ pub fn run(words: &[&str], ctx: &mut Ctx) -> String {
         tokio::time::sleep(Duration::from_millis(20)).await;
         // ------------------------------------------------------------------ oracle
         let seen = seen.lock().unwrap().clone();
-        let what = format!("n={} sh={} idem={} max={} slow={} kind={} seen(page,node,shard)={:?}", n, sh, idem, max, slow, kind, seen);
+        let what = format!("n={} sh={} idem={} max={} slow={} kind={} lb={} seen(page,node,shard)={:?}", n, sh, idem, max, slow, kind, lb, seen);
         if failed || got != vec![0, 1, 2, 3, 4, 5] {
             ctx.fail(format!("e2e spec: the stream {} with rows {:?}; {}", if failed { "failed" } else { "ended" }, got, what));
         }
@@ -182,6 +253,21 @@ pub fn run(words: &[&str], ctx: &mut Ctx) -> String {
             per_page.push(reqs.len());
             if reqs.len() as u64 > 1 + max {
                 ctx.fail(format!("e2e spec: {} requests for page {}, the policy allows 1 + {}; {}", reqs.len(), j, max, what));
+            }
+            if let Some((k, shard)) = single {
+                // the single-target plan is ONE target: every request goes there, and (the speculative executions find
+                // the plan exhausted) exactly one request per page. Not judged: a shard-less single target on a sharded
+                // node for pages >= 1, where the stable coordinator (node, its shard) is followed by (node, random shard).
+                if let Some(r) = reqs.iter().find(|r| r.1 != k) {
+                    ctx.fail(format!("e2e spec: single-target policy for node {} but a request for page {} went to node {}; {}", k, j, r.1, what));
+                }
+                let strict = shard.is_some() || sh == 0 || j == 0;
+                if strict && reqs.len() != 1 {
+                    ctx.fail(format!(
+                        "e2e spec: the single-target plan has one target, but {} executions of the fetch of page {} were sent to node {} (same plan target used twice); {}",
+                        reqs.len(), j, k, what
+                    ));
+                }
             }
             if idem == 0 && reqs.len() != 1 {
                 ctx.fail(format!("e2e spec: a non-idempotent request was sent {} times for page {}; {}", reqs.len(), j, what));
